@@ -3,18 +3,23 @@ Discovered by gen_consts.py through SECTIONS.
 
 Data read from the live module: REGISTRY_PORT, DEFAULT_PRUNING_TIMEOUT, MAX_DGRAM_SIZE, the servers' socket
 TIMEOUTs and the clients' REREGISTER_INTERVAL / default reply timeout, the `cmd_*` methods of RegistryServer with
-the number of positional parameters each takes after `host` (inspect.signature).  Facts that are not data, by
-AST: the magic string `_work` compares against and the (magic, command) constants the four client classes send.
-One fact is obtained by running the live `TCPRegistryServer._recv` once over two stand-in sockets: whether it
-closes the sockets of earlier requests that were never answered (it is the only thing that decides whether
-unanswered TCP requests accumulate descriptors; asking the code is robust against how a repair is written).
+the number of positional parameters each takes after `host` (inspect.signature).
+
+Facts that are not data are OBSERVED by running the live code over stand-ins (never read off its syntax, so
+behaviour-preserving rewrites - module constants, helper functions, renames, f-strings - change nothing here):
+  * the (magic, command) of every request the six client methods send: recorded on a stand-in for the `socket`
+    module in the registry's namespace (restored afterwards) and decoded with the live brine;
+  * the magic: the one candidate (what the clients send, plus every short text constant of the module) under which
+    the live `_work` loop (scripted `_recv`/`_send`) answers a query;
+  * the acknowledgement: what that loop answers a well-formed register and unregister with;
+  * whether `TCPRegistryServer._recv` closes the sockets of earlier requests that were never answered.
 
 The control flow of `_work` and of the three commands is modelled by hand in lean/RpycModel/Srv/Registry.lean
 and tied to the code by the C18 correspondence.
 """
 import ast
 import inspect
-import textwrap
+import socket
 
 from gen_consts import Inexpressible, lean_list, lean_str
 
@@ -38,44 +43,170 @@ def _cps(s):
     return lean_list([str(ord(c)) for c in s], 16)
 
 
-def _func_ast(fn):
-    return ast.parse(textwrap.dedent(inspect.getsource(fn))).body[0]
+# ---------------------------------------------------------------------------------------------------------------
+# Facts that are not data are OBSERVED on the live code rather than read off its syntax, so that renames, helper
+# functions, module-level constants, f-strings etc. change nothing here: the clients' requests are what the real
+# client methods hand to a recording socket; the magic and the acknowledgement are what the real `_work` loop
+# (scripted `_recv` / `_send`) accepts and answers.
+
+class _NullLogger:
+    def _n(self, *a, **k):
+        pass
+    debug = info = warn = warning = error = exception = critical = _n
 
 
-def magic_of_work(reg):
-    """the string constant `_work` compares the first field of a datagram with"""
-    node = _func_ast(reg.RegistryServer._work)
-    found = set()
-    for n in ast.walk(node):
-        if isinstance(n, ast.Compare) and len(n.ops) == 1 and isinstance(n.ops[0], (ast.NotEq, ast.Eq)):
-            sides = [n.left, n.comparators[0]]
-            names = [s for s in sides if isinstance(s, ast.Name) and s.id == "magic"]
-            consts = [s for s in sides if isinstance(s, ast.Constant) and type(s.value) is str]
-            if len(names) == 1 and len(consts) == 1:
-                found.add(consts[0].value)
-    if len(found) != 1:
-        raise Inexpressible("RegistryServer._work: expected exactly one comparison of `magic` with a text constant, found %r"
-                            % (sorted(found),))
-    return found.pop()
+class _RecordingSocket:
+    """what the client methods need of a socket; nothing ever answers"""
+    def __init__(self, log):
+        self.log = log
+
+    def _ok(self, *a, **k):
+        return None
+    bind = setsockopt = settimeout = connect = close = shutdown = _ok
+
+    def sendto(self, data, addr):
+        self.log.append(bytes(data))
+        return len(data)
+
+    def send(self, data):
+        self.log.append(bytes(data))
+        return len(data)
+    sendall = send
+
+    def recvfrom(self, n):
+        raise socket.timeout("nobody answers")
+
+    def recv(self, n):
+        raise socket.timeout("nobody answers")
+
+    def __enter__(self):
+        return self
+
+    def __exit__(self, *a):
+        return False
+
+
+class _SocketModule:
+    """stands in for the `socket` module inside rpyc.utils.registry: everything is the real thing except `socket()`"""
+    def __init__(self, log):
+        self._log = log
+
+    def socket(self, *a, **k):
+        return _RecordingSocket(self._log)
+
+    def create_connection(self, *a, **k):
+        return _RecordingSocket(self._log)
+
+    def __getattr__(self, name):
+        return getattr(socket, name)
+
+
+PROBE_NAME, PROBE_PORT = "probe", 18999
 
 
 def client_requests(reg):
-    """(class, method, magic, command) for every `brine.dump((<text>, <text>, ...))` in the client classes"""
+    """(class, method, magic, command) of what each real client method sends, decoded with the live brine"""
+    from rpyc.core import brine
     out = []
-    for cls in (reg.UDPRegistryClient, reg.TCPRegistryClient):
-        for meth in ("discover", "register", "unregister"):
-            fn = cls.__dict__.get(meth)
-            if fn is None:
-                continue
-            for n in ast.walk(_func_ast(fn)):
-                if (isinstance(n, ast.Call) and isinstance(n.func, ast.Attribute) and n.func.attr == "dump" and n.args
-                        and isinstance(n.args[0], ast.Tuple) and len(n.args[0].elts) == 3):
-                    m, c = n.args[0].elts[0], n.args[0].elts[1]
-                    if not (isinstance(m, ast.Constant) and type(m.value) is str
-                            and isinstance(c, ast.Constant) and type(c.value) is str):
-                        raise Inexpressible("%s.%s: request magic/command are not text constants" % (cls.__name__, meth))
-                    out.append((cls.__name__, meth, m.value, c.value))
+    saved = reg.socket
+    try:
+        for cls in (reg.UDPRegistryClient, reg.TCPRegistryClient):
+            for meth, args in (("discover", (PROBE_NAME,)), ("register", ((PROBE_NAME,), PROBE_PORT)), ("unregister", (PROBE_PORT,))):
+                log = []
+                reg.socket = _SocketModule(log)
+                try:
+                    cli = cls(ip="127.0.0.1", port=1, timeout=0.01, logger=_NullLogger())
+                    getattr(cli, meth)(*args)
+                except Exception as ex:  # noqa
+                    raise Inexpressible("%s.%s does not run over a recording socket: %r" % (cls.__name__, meth, ex))
+                finally:
+                    reg.socket = saved
+                if len(log) != 1:
+                    raise Inexpressible("%s.%s sent %d messages, expected one request" % (cls.__name__, meth, len(log)))
+                try:
+                    v = brine.load(log[0])
+                except Exception as ex:  # noqa
+                    raise Inexpressible("%s.%s sent bytes brine cannot load: %r" % (cls.__name__, meth, ex))
+                if not (type(v) is tuple and len(v) == 3 and type(v[0]) is str and type(v[1]) is str and type(v[2]) is tuple):
+                    raise Inexpressible("%s.%s sent %r, not (magic text, command text, args tuple)" % (cls.__name__, meth, v))
+                out.append((cls.__name__, meth, v[0], v[1], log[0]))
+    finally:
+        reg.socket = saved
     return out
+
+
+def serve(reg, datagrams):
+    """run the live `RegistryServer._work` over the datagrams (scripted `_recv` / `_send`); returns the reply to each
+    (None = none); raises Inexpressible if the loop does not survive"""
+    from rpyc.core import brine
+
+    class Probe(reg.RegistryServer):
+        def _get_logger(self):
+            return _NullLogger()
+
+        def _recv(self):
+            if self.i >= len(datagrams):
+                self.active = False
+                raise socket.timeout("done")
+            self.i += 1
+            return datagrams[self.i - 1], ("10.9.9.9", 40000)
+
+        def _send(self, data, addrinfo):
+            self.replies[self.i - 1] = brine.load(data)
+
+    class L:
+        def getsockname(self):
+            return ("0.0.0.0", 0)
+
+        def close(self):
+            pass
+    srv = Probe(L(), logger=_NullLogger())
+    srv.i, srv.replies, srv.active = 0, {}, True
+    try:
+        srv._work()
+    except Exception as ex:  # noqa
+        raise Inexpressible("RegistryServer._work does not run over scripted _recv/_send: %r" % (ex,))
+    return [srv.replies.get(k) for k in range(len(datagrams))]
+
+
+def module_texts(reg):
+    """short text constants anywhere in the module (only as further candidates for the magic)"""
+    out = set()
+    try:
+        for n in ast.walk(ast.parse(inspect.getsource(reg))):
+            if isinstance(n, ast.Constant) and type(n.value) is str and 0 < len(n.value) <= 16 and "%" not in n.value:
+                out.add(n.value)
+    except Exception:  # noqa
+        pass
+    return out
+
+
+def observe_protocol(reg):
+    """(magic the server accepts, acknowledgement it answers, client requests)"""
+    from rpyc.core import brine
+    reqs = client_requests(reg)
+    table = dict(command_table(reg))
+    queries = [c for _c, m, _mg, c, _d in reqs if m == "discover"]
+    qcmd = queries[0] if queries else ("QUERY" if "query" in table else None)
+    if qcmd is None:
+        raise Inexpressible("no query request to probe the magic with")
+    cands = sorted(set(mg for _c, _m, mg, _cmd, _d in reqs) | module_texts(reg))
+    # a query for a name nobody registered is answered (with an empty tuple) exactly when the magic is right
+    replies = serve(reg, [brine.dump((mg, qcmd, ("no-such-service",))) for mg in cands])
+    accepted = [mg for mg, r in zip(cands, replies) if r is not None]
+    if len(accepted) != 1:
+        raise Inexpressible("the registry answers a query under %d of the candidate magics %r (expected exactly one): %r"
+                            % (len(accepted), cands[:12], accepted))
+    magic = accepted[0]
+    # the acknowledgement: what a well-formed register and unregister are answered with
+    regc = [c for _c, m, _mg, c, _d in reqs if m == "register"]
+    unrc = [c for _c, m, _mg, c, _d in reqs if m == "unregister"]
+    if not regc or not unrc:
+        raise Inexpressible("the clients send no register / unregister request")
+    acks = serve(reg, [brine.dump((magic, regc[0], ((PROBE_NAME,), PROBE_PORT))), brine.dump((magic, unrc[0], (PROBE_PORT,)))])
+    if not (type(acks[0]) is str and acks[0] == acks[1]):
+        raise Inexpressible("register / unregister are acknowledged with %r / %r, not one text" % (acks[0], acks[1]))
+    return magic, acks[0], reqs
 
 
 def command_table(reg):
@@ -93,22 +224,6 @@ def command_table(reg):
                                 % (attr, inspect.signature(fn)))
         out.append((attr[4:], len(params) - 2))
     return out
-
-
-def ack_reply(reg):
-    """the text constant `cmd_register` and `cmd_unregister` return (AST); the clients compare against it"""
-    vals = set()
-    for fn in (reg.RegistryServer.cmd_register, reg.RegistryServer.cmd_unregister):
-        rets = [n for n in ast.walk(_func_ast(fn)) if isinstance(n, ast.Return)]
-        if not rets:
-            raise Inexpressible("%s has no return statement" % fn.__name__)
-        for r in rets:
-            if not (isinstance(r.value, ast.Constant) and type(r.value.value) is str):
-                raise Inexpressible("%s does not return a text constant" % fn.__name__)
-            vals.add(r.value.value)
-    if len(vals) != 1:
-        raise Inexpressible("cmd_register / cmd_unregister return different acknowledgements: %r" % sorted(vals))
-    return vals.pop()
 
 
 class _ProbeSock:
@@ -172,23 +287,19 @@ def gen_registry():
         if p is None or p.default is p.empty:
             raise Inexpressible("%s.__init__ has no default `timeout`" % cls.__name__)
         L.append("def %sClientTimeoutMs : Nat := %d" % (cls.__name__[:3].lower(), _ms(cls.__name__ + " timeout", p.default)))
-    magic = magic_of_work(reg)
-    L += ["", "/-- the text `_work` compares the first field of a datagram with (AST), as code points -/",
+    magic, ack, reqs = observe_protocol(reg)
+    L += ["", "/-- the one first field under which the live `_work` answers a query (observed), as code points -/",
           "def magic : List Nat := " + _cps(magic), "def magicText : String := " + lean_str(magic)]
     table = command_table(reg)
     L += ["", "/-- the `cmd_*` methods of `RegistryServer` (live class): name after the prefix, and the number of",
           "positional parameters after `self, host` (inspect.signature) -/",
           "def cmdNames : List String := " + lean_list([lean_str(n) for n, _ in table]),
           "def cmdTable : List (List Nat × Nat) := " + lean_list(["(%s, %d)" % (_cps(n), a) for n, a in table], 1)]
-    ack = ack_reply(reg)
-    L += ["", "/-- what `cmd_register` and `cmd_unregister` return (AST), as code points -/",
+    L += ["", "/-- what the live `_work` answers a well-formed register and unregister with (observed), as code points -/",
           "def ackReply : List Nat := " + _cps(ack), "def ackReplyText : String := " + lean_str(ack)]
-    reqs = client_requests(reg)
-    if not reqs:
-        raise Inexpressible("no `brine.dump((magic, command, args))` found in the registry clients")
-    L += ["", "/-- (magic, command) constants the client classes send (AST of discover/register/unregister) -/",
+    L += ["", "/-- (magic, command) of what the six real client methods send (observed on a recording socket) -/",
           "def clientRequests : List (String × String) := " + lean_list(
-              sorted(set("(%s, %s)" % (lean_str(m), lean_str(c)) for _, _, m, c in reqs)), 3)]
+              sorted(set("(%s, %s)" % (lean_str(m), lean_str(c)) for _, _, m, c, _d in reqs)), 3)]
     closes = tcp_recv_closes_unreplied(reg)
     L += ["", "/-- does `TCPRegistryServer._recv` close the sockets of earlier requests that got no reply (observed by running",
           "the live method over stand-in sockets) -/",
